@@ -16,7 +16,7 @@ RULE = ('cases: nesting construct in {parentheses, brackets, CASE, function call
         'openers, stray closers, mixtures, comment-laden parentheses, CREATE..BEGIN bodies, parentheses/calls/brackets/CASE with an operator, comparison or comma list at every level} x depth in [0.05, 3] x recursion limit x limit in {100,150,300,1000} '
         '(thorough adds 500,3000) x entry point in {parse, parsestream, split, format + drawn valid option set}; drawn by Hypothesis, executed in a plain-Python child '
         'process whose recursion limit is set after the imports; outcome must be ok (result passes round-trip and tree invariants computed by an iterative walk, '
-        'str() at the caller\'s stack depth) or SQLParseError; after every case - and inside the handler of every SQLParseError - an ordinary split/format call must still work; a child that dies or does not answer within 90 s (a call that never returns) is a violation; a quarter of the inputs continue with a second statement. '
+        'str() at the caller\'s stack depth) or SQLParseError; after every case - and inside the handler of every SQLParseError - an ordinary split/format call must still work; a child that dies, or that neither answers nor uses any CPU time for 90 s (a call that never returns), is a violation; a quarter of the inputs continue with a second statement. '
         'leg moderate: the grid shape x depth in {25,51,60,120,200} x entry point x 9 fixed option sets at the default limit 1000, enumerated completely (the zone where calls normally succeed: any exception other than SQLParseError shows). non-trivial: depth >= 0.5 x limit (the guard is reached), or depth >= 51 at the default limit 1000; distinct by (construct, depth, limit, entry, options)')
 ASSUMPTIONS = ['the child process imports sqlparse before lowering the recursion limit (an application does the same)',
                'limits below 100 leave too little stack for an ordinary call and are not used']
@@ -56,6 +56,15 @@ class Child:
         self.p = subprocess.Popen([sys.executable, os.path.join(VERIF, 'props', 'c15_child.py'), str(self.limit)],
                                   stdin=subprocess.PIPE, stdout=subprocess.PIPE, stderr=subprocess.DEVNULL, env=env, text=True)
 
+    def _cpu(self):
+        """CPU seconds the child has used so far (None if unknown)"""
+        try:
+            with open('/proc/%d/stat' % self.p.pid) as f:
+                parts = f.read().rsplit(')', 1)[1].split()
+            return (int(parts[11]) + int(parts[12])) / float(os.sysconf('SC_CLK_TCK'))
+        except Exception:
+            return None
+
     def run(self, case):
         hung = False
         try:
@@ -63,12 +72,23 @@ class Child:
             self.p.stdin.flush()
             # a case takes milliseconds to a few seconds; a child that says nothing for HANG_S seconds is stuck (a call
             # that never returns): it is killed and the case is reported
-            ready, _, _ = select.select([self.p.stdout], [], [], HANG_S)
-            if ready:
-                line = self.p.stdout.readline()
-            else:
-                hung = True
-                line = ''
+            idle = 0
+            last_cpu = self._cpu()
+            while True:
+                ready, _, _ = select.select([self.p.stdout], [], [], HANG_S / 3.0)
+                if ready:
+                    line = self.p.stdout.readline()
+                    break
+                cpu = self._cpu()
+                if cpu is not None and last_cpu is not None and cpu - last_cpu >= 0.5:
+                    idle = 0           # slow, but computing (a loaded machine is not a hang)
+                else:
+                    idle += 1
+                last_cpu = cpu
+                if idle >= 3:
+                    hung = True
+                    line = ''
+                    break
         except (BrokenPipeError, OSError):
             line = ''
         if hung:
@@ -77,7 +97,7 @@ class Child:
             except Exception:
                 pass
             self.start()
-            return {'outcome': 'child-hung', 'detail': 'no answer within %d s' % HANG_S, 'inv': None, 'after': None, 'len': 0}
+            return {'outcome': 'child-hung', 'detail': 'no answer and no CPU use for %d s' % HANG_S, 'inv': None, 'after': None, 'len': 0}
         if not line:
             rc = self.p.poll()
             try:
